@@ -18,7 +18,7 @@ LEVEL = 'exploration'
 BUDGET_S = {'quick': 400, 'thorough': 1800}
 RULE = ('Hypothesis cases: input content (generated configs() from all fast families, the C08 pool incl. SBT / profile-file / '
         'multi-segment contents, and failing contents: out-of-range, unknown option, missing profile file (bare sys.exit), '
-        'division by zero, missing demand file) x output argument {absent, relative, relative in a sub-directory, absolute; '
+        'division by zero, missing demand file) x output argument {absent, relative, relative in a sub-directory, absolute, through a symbolic link followed by ".."; '
         'file names with several dots and spaces} x starting working directory. Each case runs `python -m geophires_x` in a '
         'subprocess, a long-lived caching client in-process (sometimes followed by a pair of same-line-set requests with a repeated parameter in opposite order) and the entry point directly. Oracle: the three reports are identical after '
         'removing version/date/time lines; the CLI creates exactly <out> and <out stem>.json at the requested place (default '
@@ -75,7 +75,7 @@ def cases(draw):
     else:
         i = draw(st.integers(0, len(bad) - 1))
         text, expect_ok, label = bad[i], False, f'failing{i}'
-    out_kind = draw(st.sampled_from(['absent', 'relative', 'relative_subdir', 'absolute', 'absolute']))
+    out_kind = draw(st.sampled_from(['absent', 'relative', 'relative_subdir', 'absolute', 'absolute', 'via_symlink_dotdot']))
     name = draw(st.sampled_from(['result.out', 'case.v2.out', 'sweep_grad_45.5.out', 'my result.out', 'r.txt', 'noext', 'HDR.out', 'a.b.c.d']))
     # what the long-lived in-process client and pipeline were asked before: part of the case, so that one case replays alone
     prelude = [ok[i] for i in draw(st.lists(st.integers(0, len(ok) - 1), min_size=0, max_size=2))]
@@ -200,6 +200,15 @@ def evaluate(c, rec):
             args, target = [name], os.path.join(start, name)
         elif kind == 'relative_subdir':
             args, target = [os.path.join('sub', 'dir', name)], os.path.join(start, 'sub', 'dir', name)
+        elif kind == 'via_symlink_dotdot':
+            # 'current/../results/<name>' where 'current' is a symbolic link to a directory elsewhere: the operating system follows
+            # the link before going up, so the file belongs next to the link's target, not next to the link (a decoy 'results'
+            # directory stands there)
+            os.makedirs(os.path.join(root, 'store', 'runs', 'latest'))
+            os.makedirs(os.path.join(root, 'store', 'runs', 'results'))
+            os.makedirs(os.path.join(start, 'results'))
+            os.symlink(os.path.join(root, 'store', 'runs', 'latest'), os.path.join(start, 'current'))
+            args, target = [os.path.join('current', '..', 'results', name)], os.path.join(root, 'store', 'runs', 'results', name)
         else:
             target = os.path.join(elsewhere, 'sub', 'dir', name)
             args = [target]
